@@ -80,8 +80,25 @@ def run_unit(u):
                         d2f.run(lang=lang)
                         out = d2f.force_constants
                     name = "round_trip %s lang=%s openmp_entry=%s" % ("full" if full else "compact", lang, omp)
-                    v, model, idx = assert_equal(res, name, symnp.unwrap(out), symnp.unwrap(fc_in), A, tol=TOL)
+                    first = symnp.unwrap(out)
+                    v, model, idx = assert_equal(res, name, first, symnp.unwrap(fc_in), A, tol=TOL)
                     _verdict(res, u, name, v, model, xs, lambda x, full=full, lang=lang, omp=omp: replay_rt(case, x, full, lang, omp))
+                    # the same instance used a second time (documented usage: set dynamical_matrices, run(), read force_constants,
+                    # repeat) with other force constants: the second result is right and the first one is not overwritten
+                    with symnp.session():
+                        d2f.dynamical_matrices = [Dq * 2.0 for Dq in D]
+                        d2f.run(lang=lang)
+                        out2 = d2f.force_constants
+                    name2 = name.replace("round_trip", "second_run")
+                    v, model, idx = assert_equal(res, name2, symnp.unwrap(out2), [t * 2 if isinstance(t, z3.ExprRef) else t * 2 for t in symnp.unwrap(fc_in)], A, tol=TOL)
+                    _verdict(res, u, name2, v, model, xs, lambda x, full=full, lang=lang, omp=omp: replay_rt(case, x, full, lang, omp, twice=True))
+                    same = all((a.eq(b) if isinstance(a, z3.ExprRef) and isinstance(b, z3.ExprRef) else a == b) for a, b in zip(symnp.unwrap(out), first))
+                    res.queries.append({"name": name.replace("round_trip", "first_result_kept") + " [aliasing, evaluated on the symbolic buffers]", "verdict": "unsat" if same else "sat", "seconds": 0.0,
+                                        "nvars": len(xs), "nontrivial": True, "hash": "alias-%s-%s-%s" % (full, lang, omp)})
+                    if not same:
+                        ok2, mag = replay_rt(case, np.random.default_rng(3).uniform(-1, 1, len(xs)), full, lang, omp, twice=True)
+                        (res.violations if ok2 else res.unconfirmed).append({"key": "%s:first_result_overwritten:%s/%s:%s:%s:%s" % (PID, gid, sid, full, lang, omp),
+                                                                             "what": "a second run() of the same DynmatToForceConstants instance overwrites the array returned by the first run (deviation %.3g)" % mag, "replay": {"unit": list(u)}})
             # twin: drop the precondition (no permutation symmetry) -> the round trip must be refutable
             ys, Y = case.sym_compact_fc("y")
             with symnp.session():
@@ -137,7 +154,7 @@ def replay_ph2ph(case, x, tgt):
 
 
 @symnp.outside_session
-def replay_rt(case, x, full, lang, omp):
+def replay_rt(case, x, full, lang, omp, twice=False):
     import phonopy.harmonic.force_constants as fcm
     from phonopy.harmonic.dynmat_to_fc import DynmatToForceConstants
     X = np.array(x, dtype="double").reshape(case.n_p, case.n_s, 3, 3)
@@ -148,7 +165,12 @@ def replay_rt(case, x, full, lang, omp):
     D = case.D_concrete(fc_in, d2f.commensurate_points)
     d2f.dynamical_matrices = D
     d2f.run(lang=lang)
-    d = float(np.abs(d2f.force_constants - fc_in).max())
+    first = d2f.force_constants
+    d = float(np.abs(first - fc_in).max())
+    if twice:
+        d2f.dynamical_matrices = [Dq * 2.0 for Dq in D]
+        d2f.run(lang=lang)
+        d = max(d, float(np.abs(d2f.force_constants - 2 * fc_in).max()), float(np.abs(first - fc_in).max()))
     return d > TOL, d
 
 
